@@ -293,7 +293,7 @@ func (a arrayIterator[_, _]) KeyExpression() Expression {
 	if l, err := FromLiteral(a.Key()); err == nil {
 		return Expression{AnyExpression: l.AnyLiteral}
 	} else {
-		panic(err.Error())
+		return expressionForNonLiteral(a.Key())
 	}
 }
 
@@ -301,8 +301,15 @@ func (a arrayIterator[_, _]) ValueExpression() Expression {
 	if l, err := FromLiteral(a.Value()); err == nil {
 		return Expression{AnyExpression: l.AnyLiteral}
 	} else {
-		panic(err.Error())
+		return expressionForNonLiteral(a.Value())
 	}
+}
+
+// expressionForNonLiteral returns a placeholder for values that have no
+// literal form, like pairs. The expressions of collection items are used to
+// describe where an evaluation went wrong, so naming the type is enough.
+func expressionForNonLiteral(v interface{}) Expression {
+	return NewSymbolExpression(fmt.Sprintf("%T", v))
 }
 
 func (a ArrayCollection[Key, Value]) Collection() Collection[Key, Value] {
@@ -357,7 +364,7 @@ func (a arrayValuesIterator[_]) ValueExpression() Expression {
 	if l, err := FromLiteral(a.Value()); err == nil {
 		return Expression{AnyExpression: l.AnyLiteral}
 	} else {
-		panic(err.Error())
+		return expressionForNonLiteral(a.Value())
 	}
 }
 
@@ -411,7 +418,7 @@ func (a *arrayFeatureIterator[_]) ValueExpression() Expression {
 	if l, err := FromLiteral(a.Value()); err == nil {
 		return Expression{AnyExpression: l.AnyLiteral}
 	} else {
-		panic(err.Error())
+		return expressionForNonLiteral(a.Value())
 	}
 }
 
